@@ -241,3 +241,17 @@ M('c09-limit-inverted', ['C09'], Y23 + 'f1040_sb.py', "if i['1040.number_1099-in
 M('c09-not-implemented-returns', ['C09'], FI, "        raise FieldNotImplemented(self.name(), detailed=detailed)", "        return None", 'R9', 'not_implemented() returns instead of raising')
 M('c09-guards-merged-into-helper', ['C09'], Y23 + 'f1040.py', "FloatField('1e', lambda s, i, v: s.not_implemented() if i['dependent_care'] else None),", "FloatField('1e', lambda s, i, v: refuse_if(s, i['dependent_care'])),", None, 'gate guard moved into a helper closure', 'silent',
   more=[(Y23 + 'f1040.py', "        def line_19(self, i, v):\n", "        def refuse_if(self, cond):\n            if cond:\n                self.not_implemented()\n            return None\n\n        def line_19(self, i, v):\n")])
+
+# ------------------------------------------------------------------ C08
+M('c08-std-deduction-stale', ['C08'], Y23 + 'f1040.py', "(status.Single, status.MarriedFilingSeparately): 13850.00,", "(status.Single, status.MarriedFilingSeparately): 12950.00,", 'R8', 'last year\'s standard deduction left in place')
+M('c08-statuses-swapped', ['C08'], Y23 + 'f1040_s2_need6251.py', "                status.MarriedFilingSeparately:                                   63250.0,\n            },\n            'line_8'", "                status.MarriedFilingSeparately:                                   81300.0,\n            },\n            'line_8'", 'R8.1', 'MFS gets the single AMT exemption')
+M('c08-status-moved-between-keys', ['C08'], Y23 + 'f1040.py', "status.MarriedFilingJointly: 364200.00,\n                (status.Single, status.MarriedFilingSeparately, status.QualifyingSurvivingSpouse, status.HeadOfHousehold): 182100.00,",
+  "(status.MarriedFilingJointly, status.QualifyingSurvivingSpouse): 364200.00,\n                (status.Single, status.MarriedFilingSeparately, status.HeadOfHousehold): 182100.00,", 'R8.1', 'qualifying surviving spouse moved to the joint QBI threshold')
+M('c08-inline-constant-2021', ['C08'], Y21 + 'f1040_s2_need6251.py', "                return 57300.0", "                return 57300.0 + 100", 'R8.1', 'an inline 2021 constant altered')
+M('c08-rate', ['C08'], Y23 + 'fnc_d_400.py', "0.0475", "0.0499", 'R8.1', 'last year\'s NC tax rate', count=None)
+M('c08-wrong-key-input', ['C08'], Y23 + 'f1040_qualdiv_capgain_tax_wkst.py', "FloatField('6', lambda s, i, v: s.threshold('line_6', i['1040.filing_status'])),", "FloatField('6', lambda s, i, v: s.threshold('line_6', v['1040.filing_status'])),", None,
+  'lookup keyed by the filing-status line instead of the input: same member, same amounts', 'silent')
+M('c08-use-site-changed', ['C08'], Y23 + 'f1040.py', "                if v['11'] > income_limit:", "                if v['9'] > income_limit:", 'R8.2', 'the QBI threshold is compared with total income instead of AGI')
+M('c08-hsa-limit', ['C08'], Y23 + 'f8889.py', "'hsa_family_contribution_limit':     7750,", "'hsa_family_contribution_limit':     7300,", 'R8', 'last year\'s HSA family limit')
+M('c08-chain-moved-to-thresholds', ['C08'], Y22 + 'f1040_s2_need6251.py', "(103050.0 if i['1040.filing_status'] == filing_status.MarriedFilingSeparately else 206100.0)", "bp(i['1040.filing_status'])", None, 'inline status chain moved into a helper', 'silent',
+  more=[(Y22 + 'f1040_s2_need6251.py', "        def need_6251(self, i, v):\n", "        def bp(fs):\n            return 103050.0 if fs == filing_status.MarriedFilingSeparately else 206100.0\n\n        def need_6251(self, i, v):\n")])
